@@ -16,6 +16,39 @@ class Ctx:
         self.F = F
         self.roles = roles
         self.R = R
+        self._alias_tracking_forwarders()
+
+    def _alias_tracking_forwarders(self):
+        """`Tracking` hands single events to the tracker through Deref (`self.tracker.write_start(..)` is a call of the trait method). The
+        same thing written as explicit inherent one-line forwarders (`fn write_start(&mut self, a, b) { self.0.write_start(a, b) }`) is
+        read as that trait call: same name, all parameters passed on in order, nothing else in the body."""
+        F, adt = self.F, getattr(self.roles, 'tracking_adt', None)
+        TRK = 'pie::tracker::Tracker'
+        if not adt or getattr(F, '_tracking_aliased', False):
+            return
+        F._tracking_aliased = True
+        fw = {}
+        for b in F.bodies.values():
+            if b.crate != 'pie' or b.kind != 'AssocFn' or not b.impl_self or type_head(b.impl_self) != adt or b.impl_trait or b.local_ty(0) != '()':
+                continue
+            cs = [c for c in b.calls.values() if not b.blocks[c.bb]['cleanup']]
+            if len(cs) != 1 or cs[0].trait != TRK or cs[0].name != b.name or len(cs[0].args) != b.argc:
+                continue
+            c = cs[0]
+            if not all(o.kind == 'arg' and o.key == 1 for o in b.orig_operand(c.args[0])) or not b.orig_operand(c.args[0]):
+                continue
+            if all(b.orig_operand(c.args[i]) and all(o.kind == 'arg' and o.key == i + 1 and not o.path for o in b.orig_operand(c.args[i])) for i in range(1, b.argc)):
+                fw[b.id] = b.name
+        if not fw:
+            return
+        for b in F.bodies.values():
+            if b.crate != 'pie':
+                continue
+            for c in b.calls.values():
+                cb = F.callee_body(c)
+                if cb is not None and cb.id in fw:
+                    c.trait = TRK
+                    c.qname = TRK + '::' + fw[cb.id]
 
     # ---- generic helpers ----
     def has_field(self, origins, name):
@@ -418,6 +451,13 @@ def rule_req(ctx):
         mc = mcs[0]
         mcb = F.callee_body(mc)
         good = mcb is not None and reaches_exec(ctx, mcb)
+        if mcb is None and mc.trait and mc.trait.startswith('pie::'):
+            # a method of one of pie's own traits called on a type parameter (a shared generic `require` inlined here): the implementation for
+            # this context type if there is one, otherwise every implementation must be able to execute
+            cands = [x for x in F.callee_candidates(mc) if x.crate == 'pie' and not x.is_test_code()]
+            own = [x for x in cands if type_head(x.impl_self or '') == type_head(body.impl_self or '')]
+            use = own or cands
+            good = bool(use) and all(reaches_exec(ctx, x) for x in use)
         R.ob('REQ-ret', key, good, 'require returns the value produced by make-consistent (%s)' % mc.qname if good
              else 'the returned value comes from %s which cannot reach an execution site' % mc.qname, ctx.where(body, mc.bb), props=('C09', 'C17', 'C01'))
         # the node of the required task: looked up with the task that was given
@@ -928,10 +968,10 @@ def rule_ops(ctx):
                 dst_o = body.orig_operand(a.args[2])
                 # the node the dependency is recorded on is the node of the operation's own resource
                 gcs = [body.calls[o.key] for o in dst_o if o.kind == 'call' and o.key in body.calls]
-                good = len(gcs) == 1 and len(dst_o) == 1 and roles.get_or_create_resource is not None and F.callee_body(gcs[0]) is not None and \
+                good = len(gcs) == 1 and len(dst_o) == 1 and len(gcs[0].args) > 1 and roles.get_or_create_resource is not None and F.callee_body(gcs[0]) is not None and \
                     F.callee_body(gcs[0]).id == roles.get_or_create_resource.id and all(o.kind == 'arg' and o.key == 2 for o in body.orig_operand(gcs[0].args[1])) and bool(body.orig_operand(gcs[0].args[1]))
                 R.ob('OPS-dst-node', key, good, 'the dependency is recorded on the graph node of the operation\'s resource' if good
-                     else 'the graph node used for the dependency is looked up with %s, not with the operation\'s resource' % (body.describe_origins(body.orig_operand(gcs[0].args[1])) if gcs else body.describe_origins(dst_o)),
+                     else 'the graph node used for the dependency is looked up with %s, not with the operation\'s resource' % (body.describe_origins(body.orig_operand(gcs[0].args[1])) if gcs and len(gcs[0].args) > 1 else body.describe_origins(dst_o)),
                      ctx.where(body, a.bb), props=('C08', 'C15', 'C05', 'C06'))
                 _ops_specific(ctx, body, kind, key, sc, a, dst_o, infc, oks)
             _ops_tracker(ctx, body, kind, key, infc, oks)
@@ -999,8 +1039,10 @@ def _ops_specific(ctx, body, kind, key, sc, add, dst_o, infc, oks):
         ov = ctx.ev_overlap.blocks_with(body, lambda k: k[0] == dst_o)
         hw = ctx.ev_hw.blocks_with(body, lambda k: k[0] == dst_o and (ctx.is_cur(k[1])))
         if kind == 'write':
-            wrs = body.find_calls(lambda c: c.qname == 'pie::Resource::write')
-            wfn = [c for c in body.find_calls(lambda c: c.qname in CLOSURE_CALLS)
+            # the tracked path only: with no task executing the write may be done by a separate copy of the tail (nothing to validate or record there)
+            live = body.reach([0], avoid=infc)
+            wrs = body.find_calls(lambda c: c.qname == 'pie::Resource::write' and c.bb in live)
+            wfn = [c for c in body.find_calls(lambda c: c.qname in CLOSURE_CALLS and c.bb in live)
                    if all(o.kind == 'arg' for o in body.orig_operand(c.args[0])) and body.orig_operand(c.args[0])]
             targets = [('Resource::write', c) for c in wrs] + [('the task\'s write function', c) for c in wfn]
             R.ob('OPS-write-shape', key, len(wrs) == 1 and len(wfn) == 1, 'one writer creation and one invocation of the write function' if len(wrs) == 1 and len(wfn) == 1
